@@ -410,7 +410,7 @@ def extend(rep: Report, tier: str) -> None:
     def dispatch(it: Any) -> Dict[str, Any]:
         return chars_worker(it[1]) if it[0] == "chars" else state_worker(it[1])
 
-    for status, item, res in pmap(dispatch, items, budget_s=300 if tier == "quick" else 2400, chunk=4):
+    for status, item, res in pmap(dispatch, items, budget_s=300 if tier == "quick" else 720, chunk=4):
         if status == "ok":
             rep.absorb(res)
         elif status == "skipped":
